@@ -41,7 +41,10 @@ func hasAccessor(v interface{}) bool {
 	return false
 }
 
-var ffNames = []string{"f1", "f2", "f3", "fid", "fodd", "ferr"}
+var ffNames = []string{"f1", "f2", "f3", "fid", "fodd", "ferr", "fprobe"}
+
+// docProbe, when set, is called by the model function fprobe: it looks at the document DURING a retrieval
+var docProbe func()
 var afNames = []string{"g1", "g2", "gcnt", "gerr"}
 
 // modelConfig registers the model's function table (spec/Semantics.tla, ApplyFF / ApplyAF).
@@ -61,6 +64,11 @@ func modelConfig(log *callLog, accessor bool) jsonpath.Config {
 					return nil, fmt.Errorf("boom-%s", name)
 				}
 			case "fid":
+				return v, nil
+			case "fprobe":
+				if docProbe != nil {
+					docProbe()
+				}
 				return v, nil
 			}
 			return []interface{}{name, v}, nil
